@@ -394,20 +394,24 @@ def decide(ob, str_axioms, timeout_ms=20000, use_cvc5=True, name=None, want_smt2
     return (name, "unknown", "z3", r[1] if isinstance(r[1], float) else 0.0, r[2] if r[0] == "unknown" else "full query sat, instantiated query undecided", tried, full)
 
 
-def hyps_refutable(ob, str_axioms, budget_ms=10000):
-    """vacuity probe: are the hypotheses of the obligation contradictory?  (sound only in the `True` direction)"""
+def hyps_refutable(ob, str_axioms, budget_ms=10000, deep=False):
+    """vacuity probe: are the hypotheses of the obligation contradictory?  (sound only in the `True` direction).
+    quick: the quantified query with a short budget (finds blatant contradictions such as alloc[x] and not alloc[x]);
+    deep (thorough tier): also the ground-instantiated query"""
     from .state import Obligation
     probe = Obligation(ob.name + "#feasible", ob.hyps, z3.BoolVal(False), ob.meta)
-    # the ground-instantiated query answers quickly either way; the quantified one mostly times out
+    fs0 = list(probe.hyps)
+    r, _ = _solve_api(fs0 + list(str_axioms) + prelude.instantiate(fs0, lite=True), 2000)
+    if r[0] == "unsat":
+        return True
+    if r[0] == "sat" or not deep:
+        return False
     lite, _c = build_inst(probe, str_axioms, lite=True)
     if len(lite) < 25000000:
         rl = _solve_z3(lite, budget_ms)
         if rl[0] == "unsat":
             return True
-        if rl[0] == "sat":
-            return False
-    r, _ = _solve_api(_all_formulas(probe, str_axioms), min(3000, budget_ms))
-    return r[0] == "unsat"
+    return False
 
 
 def _solve_z3(smt2, timeout_ms, seed=0):
